@@ -259,7 +259,9 @@ pub fn run(seed: u64, count: usize, outdir: &str) -> std::io::Result<i32> {
         }).collect();
         let nsteps = r.range(5, 40);
         let before = st.fails.len();
-        match r.below(3) {
+        match r.below(4) {
+            // (budget 3: every two-operand op with a spilled operand goes through the spill rows of the allocator)
+            3 => history::<GenericVmFunction<3>>(&mut r, &dags, nsteps, &mut st, "vm3"),
             0 => history::<GenericVmFunction<4>>(&mut r, &dags, nsteps, &mut st, "vm4"),
             1 => history::<GenericVmFunction<255>>(&mut r, &dags, nsteps, &mut st, "vm255"),
             _ => history::<JitFunction>(&mut r, &dags, nsteps, &mut st, "jit"),
